@@ -51,12 +51,14 @@ def fib_text(fibs):
 def run(R):
     import dreye
     n = 160 if R.tier == "quick" else 3000
-    R.rule = ("tuples of 2-4 domains: equal, uniform, non-uniform, nested, partially overlapping, disjoint, unsorted; dyadic or "
+    R.rule = ("tuples of 2-4 domains: equal (the shared domain stored ascending, descending or shuffled - the same stored order in "
+              "every input - or each input permuted on its own), uniform, non-uniform, nested, partially overlapping, disjoint, unsorted; dyadic or "
               "whole-number grids (nm written as integers), the latter handed in all with an integer dtype (int64/int32) or "
               "individually as float / integer / strided view (/ list for the estimator); arrays as given / integer dtype when "
               "whole / Fortran order / strided view - the model receives the values; "
               "arrays of rank 1-4 with the domain on any axis (per-array axes, int axis or default), stack/concatenate; "
-              "steps that do not divide the overlap; estimator captures with a foreign domain; compared entry by entry with "
+              "steps that do not divide the overlap; estimator captures with a foreign domain (incl. one equal to the filters' domain, "
+              "in any stored order); stack/concatenate also on inputs that already share a domain; compared entry by entry with "
               "the exact model (domain and arrays, rtol 1e-12). Near-ties of overlap/step at a half-integer accept either "
               "neighbour. Non-trivial: interpolation actually happened on >=2 distinct domains with >=3 new points.")
     RT = 1e-11
@@ -92,7 +94,18 @@ def run(R):
                 doms.append(gen_whole_domain(rv, kind, lo, hi)); continue
             doms.append(np.asarray(gen_domain(rng, kind, lo, hi), dtype=float))
         unsorted = [bool(rng.integers(4) == 0) for _ in range(nd)]
-        c = dict(k=k, mode=mode, relation=rel, n_domains=nd, unsorted=unsorted, whole_number_domains=whole)
+        # domains that are identical may be STORED in any order (a descending wavelength axis as many spectrometers write it, or
+        # an unsorted one): every input then carries the same stored order, and the inputs still share one domain
+        ro = R.rng(8, k); shared_perm = None; shared_order = None
+        if rel == "equal":
+            shared_order = str(ro.choice(["as-generated", "as-generated", "descending", "shuffled"]))
+            if shared_order != "as-generated":
+                unsorted = [False] * nd
+                shared_perm = np.arange(len(doms[0]))[::-1].copy() if shared_order == "descending" else ro.permutation(len(doms[0]))
+            elif any(unsorted):
+                shared_order = "individually-permuted"
+            R.count("equal-domains-stored:%s" % shared_order)
+        c = dict(k=k, mode=mode, relation=rel, n_domains=nd, unsorted=unsorted, whole_number_domains=whole, shared_stored_order=shared_order)
         R.count("mode:" + mode); R.count("relation:" + rel)
         if mode == "estimator":
             nf = int(rng.integers(2, 4)); ns = int(rng.integers(1, 4))
@@ -100,6 +113,8 @@ def run(R):
             sig = dyadic(rng, 0, 4, 4, size=(ns, len(doms[1])))
             if unsorted[1]:
                 p = rng.permutation(len(doms[1])); doms[1] = doms[1][p]; sig = sig[:, p]
+            if shared_perm is not None:
+                doms = [d[shared_perm] for d in doms]; filt = filt[:, shared_perm]; sig = sig[:, shared_perm]
             if whole and rv.integers(2):
                 filt = np.round(filt); sig = np.round(sig)      # whole-number data may arrive with an integer dtype
             c.update(domains=doms, filters=filt, signals=sig)
@@ -123,6 +138,8 @@ def run(R):
                 a = np.round(a)                                  # whole-number data may arrive with an integer dtype
             if unsorted[i]:
                 p = rng.permutation(len(doms[i])); doms[i] = doms[i][p]; a = np.take(a, p, axis=ax)
+            if shared_perm is not None:
+                doms[i] = doms[i][shared_perm]; a = np.take(a, shared_perm, axis=ax)
             arrs.append(a); axes.append(ax)
         axes_mode = str(rng.choice(["list", "default", "int"]))
         if axes_mode == "default":
@@ -267,8 +284,22 @@ def run(R):
         d1 = np.arange(0, 9, 1.0); d2 = np.arange(2, 12, 2.0)
         a1 = dyadic(rng, 0, 4, 3, size=(2, len(d1))); a2 = dyadic(rng, 0, 4, 3, size=(2, len(d2)))
         conc = bool(rng.integers(2)); sa = int(rng.integers(0, 2))
-        c = dict(k=k, mode="stack", concatenate=conc, stack_axis=sa)
-        R.count("mode:stack")
+        # the inputs may also share one domain already (stored ascending, descending or unsorted): nothing is interpolated,
+        # the shared domain and the arrays come back as they are, stacked
+        rs2 = R.rng(9, k)
+        shared = str(rs2.choice(["different-domains", "shared:ascending", "shared:descending", "shared:shuffled"]))
+        if shared != "different-domains":
+            d1 = np.unique(dyadic(rs2, 0, 64, 2, size=int(rs2.integers(3, 10))))
+            if len(d1) < 2:
+                d1 = np.array([0.0, 1.0, 4.0])
+            if shared == "shared:descending":
+                d1 = d1[::-1].copy()
+            elif shared == "shared:shuffled":
+                d1 = d1[rs2.permutation(len(d1))]
+            d2 = d1.copy()
+            a1 = dyadic(rs2, 0, 4, 3, size=(2, len(d1))); a2 = dyadic(rs2, 0, 4, 3, size=(2, len(d2)))
+        c = dict(k=k, mode="stack", concatenate=conc, stack_axis=sa, domains=[d1, d2], arrays=[a1, a2], stack_domains=shared)
+        R.count("mode:stack"); R.count("stack-domains:%s" % shared)
         st, out = call(lambda: (dreye.equalize_domains([d1, d2], [a1, a2]), dreye.equalize_domains([d1, d2], [a1, a2], stack_axis=sa, concatenate=conc)))
         R.case(c, ("stack", a1.tobytes(), a2.tobytes(), conc, sa))
         if st != "ok":
@@ -277,3 +308,5 @@ def run(R):
         ref = np.concatenate([x1, x2], axis=sa) if conc else np.stack([x1, x2], axis=sa)
         if not np.array_equal(dA, dB) or not np.array_equal(ref, xs):
             R.failB(dict(c, impl=xs), "stacked result is not the stack of the equalized arrays", "C19:stack:mismatch")
+        elif shared != "different-domains" and not (np.array_equal(dA, d1) and np.array_equal(x1, a1) and np.array_equal(x2, a2)):
+            R.failB(dict(c, impl_domain=dA, impl=xs), "arrays sharing one domain were not returned unchanged (stack options in use)", "C19:stack:same")
